@@ -223,6 +223,17 @@ class C13(RebuildProp):
                     rng.shuffle(c)
                 return c
             out.append(self.scen(rng, P, v, pick(rng, P), cands, route="cli" if k % 7 == 0 else "lib"))
+        # piece lengths of several MiB (what the automatic choice arrives at for payloads of a few GiB): a file's share of
+        # a piece is then larger than any read buffer
+        M = 2 ** 20
+        for P in (2 * M, 4 * M):
+            for spec in (("D3", (2 * M + M // 2 + 7, 700, M + M // 5 + 1)), ("S1", (2 * M + M // 2 + 3,)), ("D2", (5 * M + 11, 3))):
+                for v in (1, 2, 3):
+                    c = self.scen(rng, P, v, spec, lambda fi, f: [self.cand(rng, "decoy_all"), self.cand(rng, "intact")] if fi == 0 else [self.cand(rng, "intact")])
+                    for k2 in ("dest_dot", "rel_paths"):
+                        c.pop(k2, None)
+                    c["clauses"] = [x for x in c["clauses"] if not x.startswith("M")]
+                    out.append(c)
         # a one-piece v1 payload whose piece hash is well-formed UTF-8 (the metafile decoder returns it as text)
         for route in ("lib", "cli"):
             for src in ("own", "ref"):
@@ -630,6 +641,18 @@ class C19(RebuildProp):
                 t["files"][0]["cands"] = [{"cls": "intact", "search": 0, "depth": 0}]
                 out.append({"version": v, "P": B, "tree": t, "meta_src": "ref", "meta_name": nm, "hostile": True,
                             "nsearch": 1, "unrelated": 1, "clauses": list(self.clauses)})
+        # the destination directory is NAMED like the torrent (rebuild -d ~/seeding/Some.Album for the torrent Some.Album):
+        # entries that climb one level stay inside the directory that was given - or are refused
+        for v in (1, 2, 3):
+            for h in ("..", "a/../../b", "../dest_old", "x/../.."):
+                for pos in (0, 1):
+                    t = mk_tree("D2", (B + 5, 2 * B))
+                    for fi, f in enumerate(t["files"]):
+                        f["meta_path"] = ([h] if pos == 0 else ["sub", h]) + ["victim%d.bin" % fi]
+                        f["cands"] = [{"cls": "intact", "search": 0, "depth": fi}]
+                    out.append({"version": v, "P": B, "tree": t, "meta_src": "ref", "hostile": True, "nsearch": 1, "unrelated": 1,
+                                "dest_is_name": True, "victims": pos == 1, "clauses": list(self.clauses),
+                                "route": ("lib", "cli")[(len(out)) % 2]})
         # zero-length entries with hostile paths: after the last byte of a whole number of pieces, in a
         # torrent of empty files only, and next to a file whose candidate is missing (piece cannot verify)
         for v in (1, 2, 3):
